@@ -1,7 +1,11 @@
 (* Line dispatch for C18: case line -> result line.
    build calls   (calls: A,i,j | D,i | S,i,s joined by ';', operands decimal, '-' = no call)
                  -> per call  <returned index>/<program length after>  or  E/<length>, then the final ops
-   count ops | reads ops | deps ops | evaluate ops | product seq seq | plus seq x *)
+   count ops | reads ops | deps ops | evaluate ops | product seq seq | plus seq x
+   phist seq steps  (steps: p<src>:<seq> = Product(chain src, seq), l<src>:<x> = Plus(chain src, x), joined
+                     by ';'; chain 0 is the first argument, chain k the result of step k)
+                 -> all results, joined by ';'.  Lists are immutable here, so earlier results cannot
+                    change: the Go side re-reads every result after the last call. *)
 From Coq Require Import String.
 From Coq Require Import List NArith ZArith Bool.
 From AV Require Import model.Proto model.Chain model.Program.
@@ -45,6 +49,45 @@ Fixpoint run_calls (p : list op) (cs : list call) : list (list N) * list op :=
       (item :: items, pf)
   end.
 
+Inductive hstep := HProduct (src : nat) (b : list Z) | HPlus (src : nat) (x : Z).
+
+Definition parse_hstep (s : list N) : option hstep :=
+  match s with
+  | 112 :: r => match split 58 r with
+                | [a; b] => match parse_nat a, pseq b with
+                            | Some src, Some l => Some (HProduct src l)
+                            | _, _ => None
+                            end
+                | _ => None
+                end
+  | 108 :: r => match split 58 r with
+                | [a; b] => match parse_nat a, parse_hexZ b with
+                            | Some src, Some x => Some (HPlus src x)
+                            | _, _ => None
+                            end
+                | _ => None
+                end
+  | _ => None
+  end.
+
+(* chains: the first argument followed by the results so far; None = the case line is malformed *)
+Fixpoint run_history (chains : list (list Z)) (steps : list hstep) : option (outcome (list (list Z))) :=
+  match steps with
+  | [] => Some (Ok (tl chains))
+  | st :: r =>
+      let src := match st with HProduct i _ => i | HPlus i _ => i end in
+      match nth_error chains src with
+      | None => None
+      | Some lhs =>
+          match (match st with HProduct _ b => product lhs b | HPlus _ x => plus lhs x end) with
+          | Ok c => run_history (chains ++ [c]) r
+          | Err e => Some (Err e)
+          | Panic e => Some (Panic e)
+          | OutOfFuel => Some OutOfFuel
+          end
+      end
+  end.
+
 Definition run (line : list N) : list N :=
   match split sp line with
   | [f; a] =>
@@ -71,6 +114,12 @@ Definition run (line : list N) : list N :=
           | _, _ => r_badcase end
       else if str_eqb f $"plus" then match pseq a, parse_hexZ b with
           | Some x, Some y => print_outcome prseq (plus x y)
+          | _, _ => r_badcase end
+      else if str_eqb f $"phist" then match pseq a, map_opt parse_hstep (split 59 b) with
+          | Some x, Some steps => match run_history [x] steps with
+                                  | Some o => print_outcome (fun cs => join [59] (map prseq cs)) o
+                                  | None => r_badcase
+                                  end
           | _, _ => r_badcase end
       else r_badcase
   | _ => r_badcase
